@@ -26,7 +26,7 @@ Write(f, c, valid) ==
     /\ UNCHANGED <<ms, gs, removed>>
 
 Remove(f) ==
-    /\ nev < MaxEvents /\ pend < MaxPending /\ ~removed
+    /\ nev < MaxEvents /\ pend < MaxPending          \* several files may disappear between two scans
     /\ files[f].present
     /\ files' = [files EXCEPT ![f] = Absent]
     /\ ev' = [kind |-> "remove", f |-> f]
